@@ -10,12 +10,14 @@ import (
 	"fmt"
 	"math/rand"
 	"os"
+	"os/signal"
 	"path/filepath"
 	"runtime"
 	"sort"
 	"strings"
 	"sync"
 	"sync/atomic"
+	"syscall"
 	"time"
 
 	"github.com/php-any/origami/data"
@@ -59,13 +61,36 @@ const (
 	opLoadPkg
 	opGetFuncBS     // GetFunc("\\name")
 	opGetConstantBS // GetConstant("\\name")
+	// the "\\name" forms of the loading lookups (each has a strip/fallback branch); base VM only:
+	// TempVM does not normalise a leading backslash
+	opGetOrLoadClassBS
+	opGetOrLoadInterfaceBS
+	opLoadPkgBS
 	opAllClasses    // AllClasses(): a reader of the whole table (not part of the histories)
 	opAllFuncs
 	nOpKinds
 )
 
 var opNames = [...]string{"AddClass", "AddInterface", "AddFunc", "GetClass", "GetInterface", "GetFunc", "SetConstant", "GetConstant",
-	"EnsureGlobalZVal", "GetOrLoadClass", "GetOrLoadInterface", "LoadPkg", "GetFunc\\", "GetConstant\\", "AllClasses", "AllFuncs"}
+	"EnsureGlobalZVal", "GetOrLoadClass", "GetOrLoadInterface", "LoadPkg", "GetFunc\\", "GetConstant\\",
+	"GetOrLoadClass\\", "GetOrLoadInterface\\", "LoadPkg\\", "AllClasses", "AllFuncs"}
+
+// plainKind maps the "\\name" form of a lookup to the plain form (same sequential meaning).
+func plainKind(kind int) int {
+	switch kind {
+	case opGetFuncBS:
+		return opGetFunc
+	case opGetConstantBS:
+		return opGetConstant
+	case opGetOrLoadClassBS:
+		return opGetOrLoadClass
+	case opGetOrLoadInterfaceBS:
+		return opGetOrLoadInterface
+	case opLoadPkgBS:
+		return opLoadPkg
+	}
+	return kind
+}
 
 // tables (partitions of the history): class and interface names share one table because
 // AddClass and AddInterface each test the other's map.
@@ -81,7 +106,8 @@ var tabNames = [...]string{"class+interface", "func", "const", "global"}
 
 func opTable(kind int) int {
 	switch kind {
-	case opAddClass, opAddInterface, opGetClass, opGetInterface, opGetOrLoadClass, opGetOrLoadInterface, opLoadPkg, opAllClasses:
+	case opAddClass, opAddInterface, opGetClass, opGetInterface, opGetOrLoadClass, opGetOrLoadInterface, opLoadPkg, opAllClasses,
+		opGetOrLoadClassBS, opGetOrLoadInterfaceBS, opLoadPkgBS:
 		return tabType
 	case opAddFunc, opGetFunc, opGetFuncBS, opAllFuncs:
 		return tabFunc
@@ -114,7 +140,7 @@ func genPrograms(c caseSpec) [][]progOp {
 	kinds := []int{opAddClass, opAddClass, opAddInterface, opAddFunc, opAddFunc, opSetConstant, opSetConstant,
 		opGetClass, opGetClass, opGetClass, opGetInterface, opGetInterface, opGetFunc, opGetFunc, opGetFunc,
 		opGetConstant, opGetConstant, opEnsureGlobal, opEnsureGlobal, opGetOrLoadClass, opGetOrLoadInterface, opLoadPkg,
-		opGetFuncBS, opGetConstantBS}
+		opGetFuncBS, opGetFuncBS, opGetConstantBS, opGetOrLoadClassBS, opGetOrLoadInterfaceBS, opLoadPkgBS}
 	for g := 0; g < c.G; g++ {
 		p := make([]progOp, 0, per)
 		for i := 0; i < per; i++ {
@@ -311,6 +337,7 @@ func workerMain(specPath, outPath string) {
 	if c.Procs > 0 {
 		runtime.GOMAXPROCS(c.Procs)
 	}
+	installStackDumper(outPath + ".stacks")
 	// script output of autoloaded files (none expected) must not reach the result channel
 	data.WriteOutput = func(string) {}
 	var res workerResult
@@ -333,6 +360,25 @@ func workerMain(specPath, outPath string) {
 	}
 	_ = os.Rename(outPath+".tmp", outPath)
 	os.Exit(0)
+}
+
+// installStackDumper: on SIGUSR1 the worker writes the stacks of all goroutines (a
+// stop-the-world snapshot) to path and carries on. The driver asks for it when the worker
+// has stopped consuming CPU, and decides from the snapshot whether every goroutine is
+// parked on a registry lock (proc.go).
+func installStackDumper(path string) {
+	ch := make(chan os.Signal, 4)
+	signal.Notify(ch, syscall.SIGUSR1)
+	_ = os.WriteFile(path+".ready", []byte("1"), 0o644)
+	go func() {
+		for range ch {
+			buf := make([]byte, 16<<20)
+			n := runtime.Stack(buf, true)
+			if err := os.WriteFile(path+".tmp", buf[:n], 0o644); err == nil {
+				_ = os.Rename(path+".tmp", path)
+			}
+		}
+	}()
 }
 
 // runRegistry executes the programs of one hist/stress case.
@@ -437,6 +483,18 @@ func runRegistry(c caseSpec) workerResult {
 					}
 				case opLoadPkg:
 					if v, acl := lk.LoadPkg(typeName(n)); acl == nil && v != nil {
+						r.Out = tokOf(v)
+					}
+				case opGetOrLoadClassBS:
+					if v, acl := vm.GetOrLoadClass("\\" + typeName(n)); acl == nil && v != nil {
+						r.Out = tokOf(v)
+					}
+				case opGetOrLoadInterfaceBS:
+					if v, acl := vm.GetOrLoadInterface("\\" + typeName(n)); acl == nil && v != nil {
+						r.Out = tokOf(v)
+					}
+				case opLoadPkgBS:
+					if v, acl := vm.LoadPkg("\\" + typeName(n)); acl == nil && v != nil {
 						r.Out = tokOf(v)
 					}
 				case opAllClasses:
